@@ -136,10 +136,15 @@ Definition wire (g : glyph) : list byte :=
     end
   else [g0 g].
 
-Definition advance_cursor (st : tstate) : tstate :=
+(* control characters (LF, CR, HT, BS, ...) move the cursor in their own ways:
+   the position is forgotten rather than advanced *)
+Definition is_control_glyph (g : glyph) : bool := (g0 g <? 32) || (g0 g =? 127).
+
+Definition advance_cursor (st : tstate) (g : glyph) : tstate :=
   match ts_cur st with
   | Some (x, y) =>
-      if x + 1 =? fst (ts_size st) then set_cur st None
+      if is_control_glyph g then set_cur st None
+      else if x + 1 =? fst (ts_size st) then set_cur st None
       else set_cur st (Some (x + 1, y))
   | None => st
   end.
@@ -151,7 +156,7 @@ Definition write_element (beh : behaviour) (st : tstate) (e : element)
   let cmds := change_charset beh (gcs (eg last)) (gcs (eg e)) ++
               change_attribute (ea last) (ea e) ++
               [Payload (wire (eg e))] in
-  (advance_cursor (set_last st (Some e)), cmds).
+  (advance_cursor (set_last st (Some e)) (eg e), cmds).
 
 (* cursor.cpp *)
 Definition cup (p : pt) : cmd :=
